@@ -90,33 +90,33 @@ CHECKS.append(
 CHECKS.append(
     {"id": "C10", "engine": "vc_update", "category": "exploration", "design_ref": "DESIGN.md §2 C10",
      "technique": "bounded exhaustive enumeration of (document, per-test outcome vector) with repeated application of the real MarkdownUpdateGenerator; invariants judged with the reference tokenizer",
-     "text": "Every accepted document of the segment family (with truncations) x every outcome vector over {pass, changed output, changed exit code, unterminated output} is updated by the real generator with outcomes from the real validate, three times in a row: lines outside scrut blocks, block languages/configs/comments and the bodies of passing tests must be preserved, the result must re-parse to the same commands, and the 2nd and 3rd application must change nothing.",
-     "note": "Markdown update generator in-process; documents up to 2/3 segments; outputs synthesised per outcome class"})
+     "text": "Every accepted document of the segment family (with truncations) x every outcome vector over {pass, changed output, changed exit code, unterminated output, exit code 0 instead of the expected one, output with fence look-alikes, first expected line gone} is updated by the real generator with outcomes from the real validate, three times in a row: lines outside scrut blocks, block languages/configs/comments and the bodies of passing tests must be preserved, the result must re-parse to the same commands, and the 2nd and 3rd application must change nothing.",
+     "note": "Markdown update generator in-process; documents up to 2/3 segments (three-segment documents over a core subset); outputs synthesised per outcome class, also with stderr as the validated stream; end-to-end documents with real commands through `scrut update` twice and `scrut test`"})
 CHECKS.append(
     {"id": "C19", "engine": "vc_render", "category": "exploration", "design_ref": "DESIGN.md §2 C19",
      "technique": "bounded exhaustive enumeration of outcome lists (diffs produced by the real validate over a text alphabet of multi-byte / wide / control / long lines) x renderer settings through all four real renderers, with structural oracles on the rendering",
      "text": "Every enumerated outcome list is rendered by pretty (colour and monochrome), diff, json and yaml: no panic, Ok(text); pretty and diff must show exactly one +/- line per unexpected line / unmatched expectation of each failed test containing its text, no section for passed tests, a summary that adds up; json/yaml must parse back to one entry per outcome with the right result kind.",
-     "note": "lists with mixed location presence excluded; needle text computed with scrut's own escaper (C11 covers it)"})
+     "note": "lists with mixed location presence excluded; needle text computed with scrut's own escaper (C11 covers it); also hand-built diff shapes, outcomes sharing one line number, and unescaped text with escape-sequence introducers rendered with colours off"})
 CHECKS.append(
     {"id": "C13", "engine": "vc_io", "category": "exploration", "design_ref": "DESIGN.md §2 C13",
      "technique": "bounded exhaustive enumeration of (payload x stream x exit code x settings x executor) and of test-case sequences through the real executors with the real bash, compared with a byte-exact reference of the documented transformations",
      "text": "Every combination of the payload alphabet (binary, CRLF shapes, ANSI, divider look-alikes, unterminated lines, ...), target stream, exit code, output_stream/keep_crlf/strip_ansi setting and executor (per-process and single-script) is executed with /bin/bash; recorded stdout/stderr/exit code must equal the reference exactly, per test case also in sequences; placeholder-looking and quote-heavy text must reach the shell verbatim; replace_crlf is compared with an iterative reference on all short byte strings and at sizes up to 10^6 line endings.",
-     "note": "/bin/bash of this image; sizes at decades; strip-ansi third-party over-stripping recorded as known finding"})
+     "note": "/bin/bash of this image; sizes at decades; expressions that change what scrut's own scaffolding depends on (IFS, PATH, functions named like its commands, set -k); shell tracing of scrut's own commands recorded as known finding"})
 CHECKS.append(
     {"id": "C12", "engine": "vc_state", "category": "model_checking", "design_ref": "DESIGN.md §2 C12",
      "technique": "explicit-state breadth-first search over canonical shell states (deduplicated on the reference probe output); every transition executed on the real StatefulExecutor+BashRunner with real bash and compared with a single-bash-session reference model",
-     "text": "States are canonical probe outputs of one bash session; from every reached state every snippet of the 30-snippet alphabet is applied; each transition is run through the real executor (one bash process per test case, state file in between) and its probe output must equal that of ONE bash session fed the same snippets (detached snippets omitted there). Reports states, transitions and that every transition was validated against the implementation.",
-     "note": "/bin/bash of this image; depth-bounded (quick: all transitions from states at depth < 2, thorough: < 3); read-only variables and -e/-x/-v excluded as documented"})
+     "text": "States are canonical probe outputs of one bash session; from every reached state every snippet of the 64-snippet alphabet is applied; each transition is run through the real executor (one bash process per test case, state file in between) and its probe output must equal that of ONE bash session fed the same snippets (detached snippets omitted there). Reports states, transitions and that every transition was validated against the implementation.",
+     "note": "/bin/bash of this image; depth-bounded (quick: all transitions from states at depth < 2; thorough: < 3, then < 4 over a 14-snippet core alphabet); -x/-v excluded; with errexit on, snippets that can fail are not taken (no single-session equivalent); a test case's own EXIT trap recorded as known finding"})
 CHECKS.append(
     {"id": "C05", "engine": "vc_verdict", "category": "exploration", "design_ref": "DESIGN.md §2 C05",
      "technique": "exhaustive enumeration of the verdict table (exit status x expected code x stream x acceptance) through the real validate, and of all short documents over command behaviours (incl. death by signal) through the real binary",
-     "text": "All 2240 rows of the verdict table are evaluated by the real TestCase::validate (pass iff Code(c), c = expected or 0, and the selected stream accepted; wrong code reported as such whatever the output; no status without exit code ever passes); every document of 1..2 (quick) / 1..3 (thorough) test cases over 9 command behaviours is run in Markdown and Cram through `scrut test -r json` and the per-test kinds and the process exit status are compared with the reference.",
-     "note": "/bin/bash of this image; acceptance of streams itself is C01-C03"})
+     "text": "All 2240 rows of the verdict table are evaluated by the real TestCase::validate (pass iff Code(c), c = expected or 0, and the selected stream accepted; wrong code reported as such whatever the output; no status without exit code ever passes); every document of 1..2 (quick) / 1..3 (thorough) test cases over 16 command behaviours (incl. redefining `exit`, `set -t`, `set -n`) is run in Markdown and Cram through `scrut test -r json` and the per-test kinds and the process exit status are compared with the reference.",
+     "note": "/bin/bash of this image; acceptance of streams itself is C01-C03; plus the stream the verdict is taken on, end to end (defaults x inline x flag x placement of the expected line)"})
 CHECKS.append(
     {"id": "C14", "engine": "vc_timeout", "category": "model_checking", "design_ref": "DESIGN.md §2 C14",
      "technique": "exhaustive exploration of the executor's timeline under a virtual clock (hook) with a fake Runner against a reference timeline model, plus real-time conformance replays of model traces through the scrut binary",
      "text": "Every document of 1..3 test cases over duration x per-test timeout x wait x document limit is run through the real StatefulExecutor::execute_all under a virtual clock; which limit fires, at which test, with how many outputs and at what virtual time must equal the reference timeline, and execution never extends beyond the document limit. The model's traces are replayed in real time through `scrut test` (kinds timeout/skipped, exit status 50, wall time within [limit, limit+1.5 s], no timeout for fast commands, timed-out shell terminated).",
-     "note": "virtual clock hook H1 (cfg scrut_verif) in stateful_executor.rs; real time only by replays (L1); surviving grandchildren of a timed out shell recorded as known finding"})
+     "note": "virtual clock hook H1 (cfg scrut_verif) in stateful_executor.rs; real time only by replays (L1); surviving grandchildren of a timed out shell, an output flood that is not interrupted and an exit with unread script reported as timeout recorded as known findings (the latter two: pipe handling of the subprocess crate)"})
 CHECKS.append(
     {"id": "C15", "engine": "vc_cli", "category": "exploration", "design_ref": "DESIGN.md §2 C15",
      "technique": "exhaustive enumeration of short documents (position and kind of the skipping test case x skip-code setting x format x second document) through the real scrut binary against a reference",
